@@ -1,238 +1,28 @@
 import SupervisorModel.Model.ProcOps
 import SupervisorModel.Lemmas.ProcDefs
+import SupervisorModel.Lemmas.ProcChain
+import SupervisorModel.Lemmas.SupChain
+import SupervisorModel.Lemmas.SupNoAns
 /-
   C01 — process state changes follow the documented lifecycle graph; UNKNOWN is entered only
   when delivering a signal failed; every change is announced by exactly one PROCESS_STATE
   notification naming the state left.
+
+  The observer (`edge`, `intoUnknown`, `replay`), the relation `Chain` and the per-method lemmas
+  (`transition_chain`, `finish_chain`, …) are in Lemmas/ProcChain.lean (same namespace); the walk
+  over the pieces of a main-loop pass is in Lemmas/SupChain.lean (and Lemmas/SupNoAns.lean: the record
+  never holds an unconsumed per-process RPC answer).  Here: one operation, every
+  history of one process (`step_chain`, `history_chain`), and the lift to every run of the daemon
+  (`pass_chain`, `passes_chain`, `passes_chain_init`, objects created by `addProcessGroup`).
 -/
 set_option linter.unusedSimpArgs false
 namespace Sv.Props.C01
 open Sv Sv.Proc Sv.Gen.Proc
 
-/-- the documented graph (edge list of the property statement / docs/subprocess.rst) -/
-def edge : PS → PS → Bool
-  | .stopped, .starting => true
-  | .starting, .running => true | .starting, .backoff => true | .starting, .stopping => true
-  | .running, .stopping => true | .running, .exited => true
-  | .backoff, .starting => true | .backoff, .fatal => true | .backoff, .stopped => true
-  | .stopping, .stopped => true
-  | .exited, .starting => true
-  | .fatal, .starting => true
-  | _, _ => false
-
-/-- the only way into UNKNOWN: from a state in which a signal can be delivered -/
-def intoUnknown (frm to : PS) : Bool := to == .unknown && frm ∈ signallableStates
-
-/-- An observer replaying the notifications: each PROCESS_STATE notification must name the
-    observer's current state as the state left and be a documented edge (or the signalling-failure
-    edge into UNKNOWN); other outputs do not change the state.  `none` = the observer was misled. -/
-def replay : PS → List Out → Option PS
-  | st, [] => some st
-  | st, .ev to frm _ _ _ :: r =>
-      if frm = st ∧ (edge st to = true ∨ intoUnknown st to = true) then replay to r else none
-  | st, _ :: r => replay st r
-
 theorem states_are_documented : processStates = documentedStates ∧ processStates.length = 8 := by decide
 
 /-- every state has a notification class: no change can be silent -/
 theorem every_state_announced : ∀ s : PS, announces s = true := announces_all
-
-theorem replay_append (st : PS) (a b : List Out) :
-    replay st (a ++ b) = (replay st a).bind (fun st' => replay st' b) := by
-  induction a generalizing st with
-  | nil => simp [replay]
-  | cons x xs ih =>
-    cases x <;> simp [replay, ih]
-    split <;> simp [ih]
-
-/-- `s'` extends `s` by outputs whose notifications replay from `s`'s state to `s'`'s state -/
-def Chain (s s' : S) : Prop :=
-  s.outs <+: s'.outs ∧ replay s.p.state (s'.outs.drop s.outs.length) = some s'.p.state
-
-theorem chain_refl (s : S) : Chain s s := by simp [Chain, replay]
-
-theorem chain_trans {a b c : S} (h1 : Chain a b) (h2 : Chain b c) : Chain a c := by
-  obtain ⟨⟨x, hx⟩, r1⟩ := h1
-  obtain ⟨⟨y, hy⟩, r2⟩ := h2
-  have e1 : b.outs.drop a.outs.length = x := by rw [← hx]; simp
-  have e2 : c.outs.drop b.outs.length = y := by rw [← hy]; simp
-  have e3 : c.outs.drop a.outs.length = x ++ y := by rw [← hy, ← hx, List.append_assoc]; simp
-  rw [e1] at r1
-  rw [e2] at r2
-  refine ⟨⟨x ++ y, by rw [← hy, ← hx, List.append_assoc]⟩, ?_⟩
-  rw [e3, replay_append, r1]
-  simpa using r2
-
-theorem kill_chain (cfg : Cfg) (now sig : Int) (kr : KillRes) (s : S) : Chain s (kill cfg now sig kr s) := by
-  obtain ⟨p, os, err⟩ := s
-  cases err with
-  | some e => simp [kill, guard, Chain, replay]
-  | none =>
-  cases hs : p.state <;> cases kr <;> by_cases hp : p.pid = 0 <;>
-    simp [Chain, kill, changeState, assertIn, emit, setP, guard, replay, edge, intoUnknown, hs, hp,
-      kill_g0, kill_g1, kill_g2, kill_g4, kill_a7, kill_a8, kill_a11, kill_a12, kill_a13, kill_a14, kill_a19, kill_a20,
-      kill_c0_0, kill_c1, kill_c2_0, kill_c3_0, kill_c3_1, kill_c4_0, change_state_g0, change_state_g1, change_state_a0,
-      change_state_a2, change_state_a4, change_state_a5, signallableStates]
-
-theorem rollback_state (cfg : Cfg) (now : Int) (p : Proc) : (rollback cfg now p).state = p.state := by
-  simp only [rollback]
-  repeat' split
-  all_goals rfl
-
-theorem spawn_chain (cfg : Cfg) (now : Int) (res : SpawnRes) (s : S) : Chain s (spawn cfg now res s) := by
-  obtain ⟨p, os, err⟩ := s
-  cases err with
-  | some e => simp [spawn, guard, Chain, replay]
-  | none =>
-  cases hs : p.state <;> cases res <;> by_cases hp : p.pid = 0 <;>
-    simp [Chain, spawn, spawnError, changeState, assertIn, emit, setP, guard, replay, edge, intoUnknown, hs, hp,
-      spawn_g0, spawn_g3, spawn_a3, spawn_a6, spawn_a7, spawn_a8, spawn_c0, spawn_c1_0, spawn_c2, spawn_c3_0, spawn_c4,
-      spawn_c5_0, spawn_c6, spawn_c7_0, spawn_as_parent_a0, spawn_as_parent_a3,
-      change_state_g0, change_state_g1, change_state_a0, change_state_a2, change_state_a4, change_state_a5, signallableStates]
-  all_goals (split <;> simp [replay, edge, intoUnknown])
-
-theorem giveUp_chain (cfg : Cfg) (now : Int) (s : S) : Chain s (giveUp cfg now s) := by
-  obtain ⟨p, os, err⟩ := s
-  cases err with
-  | some e => simp [giveUp, guard, Chain, replay]
-  | none =>
-  cases hs : p.state <;>
-    simp [Chain, giveUp, changeState, assertIn, emit, setP, guard, replay, edge, intoUnknown, hs,
-      give_up_a0, give_up_a1, give_up_a2, give_up_c0, give_up_c1_0,
-      change_state_g0, change_state_g1, change_state_a0, change_state_a2, change_state_a4, change_state_a5, signallableStates]
-
-theorem signal_chain (cfg : Cfg) (now sig : Int) (kr : KillRes) (s : S) : Chain s (signal cfg now sig kr s) := by
-  obtain ⟨p, os, err⟩ := s
-  cases err with
-  | some e => simp [signal, guard, Chain, replay]
-  | none =>
-  cases hs : p.state <;> cases kr <;> by_cases hp : p.pid = 0 <;>
-    simp [Chain, signal, changeState, assertIn, emit, setP, guard, replay, edge, intoUnknown, hs, hp,
-      signal_g0, signal_c0, signal_c1_0, signal_c1_1, signal_c2_0,
-      change_state_g0, change_state_g1, change_state_a0, change_state_a2, change_state_a4, change_state_a5, signallableStates]
-
-/-- a state-preserving field update is invisible to the observer -/
-theorem setP_chain (f : Proc → Proc) (hf : ∀ p, (f p).state = p.state) (s : S) : Chain s (setP f s) := by
-  obtain ⟨p, os, err⟩ := s
-  cases err <;> simp [Chain, setP, guard, replay, hf]
-
-def isEv : Out → Bool
-  | .ev .. => true
-  | _ => false
-
-theorem emit_chain (o : Out) (ho : isEv o = false) (s : S) : Chain s (emit o s) := by
-  obtain ⟨p, os, err⟩ := s
-  cases err with
-  | some e => simp [Chain, emit, guard, replay]
-  | none => cases o <;> simp_all [Chain, emit, guard, replay, isEv]
-
-theorem stop_chain (cfg : Cfg) (now : Int) (kr : KillRes) (s : S) : Chain s (stop cfg now kr s) := by
-  rw [stop, guard]
-  split
-  · exact chain_refl s
-  · dsimp only
-    refine chain_trans ?_ (kill_chain ..)
-    apply setP_chain; intro _; rfl
-
-theorem finishCore_chain (cfg : Cfg) (e : Env) (busy : Bool) (s : S) : Chain s (finishCore cfg e busy s) := by
-  obtain ⟨p, os, err⟩ := s
-  cases err with
-  | some e => simp [finishCore, guard, Chain, replay]
-  | none =>
-  cases hs : p.state <;> cases busy <;> cases hk : p.killing <;> cases ht : e.tooQuickly <;> cases hx : e.exitExpected <;>
-    simp [Chain, finishCore, changeState, assertIn, emit, setP, guard, replay, edge, intoUnknown, hs, hk, ht, hx,
-      finish_g1, finish_g2, finish_a7, finish_a8, finish_a9, finish_g4, finish_g5, finish_g6, finish_a11, finish_a12,
-      finish_a13, finish_a18, finish_a19, finish_a20, finish_a24, finish_c0, finish_c1_0, finish_c2, finish_c3_0, finish_c4_0,
-      finish_c5, finish_c6_0, finish_c6_1, finish_c7_0, finish_c7_1,
-      change_state_g0, change_state_g1, change_state_a0, change_state_a2, change_state_a4, change_state_a5, signallableStates]
-
-theorem finish_chain (cfg : Cfg) (now es : Int) (busy : Bool) (s : S) : Chain s (finish cfg now es busy s) := by
-  rw [finish, guard]
-  split
-  · exact chain_refl s
-  · dsimp only
-    refine chain_trans ?_ (finishCore_chain ..)
-    refine chain_trans (b := setP (rollback cfg now) s) ?_ ?_
-    · exact setP_chain _ (rollback_state cfg now) s
-    · apply setP_chain; intro _; rfl
-
-theorem autoStart_chain (cfg : Cfg) (e : Env) (res : SpawnRes) (s : S) : Chain s (autoStart cfg e res s) := by
-  rw [autoStart, guard]
-  repeat' split
-  all_goals first | exact chain_refl s | exact spawn_chain ..
-
-theorem toRunning_chain (cfg : Cfg) (e : Env) (s : S) : Chain s (toRunning cfg e s) := by
-  obtain ⟨p, os, err⟩ := s
-  cases err with
-  | some e => simp [toRunning, guard, Chain, replay]
-  | none =>
-  cases hs : p.state <;> cases h10 : transition_g10 p cfg e <;> cases h11 : transition_g11 p cfg e <;>
-    simp [Chain, toRunning, changeState, assertIn, emit, setP, guard, replay, edge, intoUnknown, hs, h10, h11,
-      transition_a4, transition_a5, transition_c0, transition_c1_0,
-      change_state_g0, change_state_g1, change_state_a0, change_state_a2, change_state_a4, change_state_a5, signallableStates]
-
-theorem escalate_chain (cfg : Cfg) (e : Env) (kr : KillRes) (s : S) : Chain s (escalate cfg e kr s) := by
-  rw [escalate, guard]
-  repeat' split
-  all_goals first | exact chain_refl s | exact giveUp_chain .. | exact kill_chain ..
-
-theorem transition_chain (cfg : Cfg) (now mood : Int) (res : SpawnRes) (kr : KillRes) (s : S) :
-    Chain s (transition cfg now mood res kr s) := by
-  rw [transition, guard]
-  split
-  · exact chain_refl s
-  · dsimp only
-    refine chain_trans ?_ (escalate_chain ..)
-    refine chain_trans ?_ (toRunning_chain ..)
-    refine chain_trans ?_ (autoStart_chain ..)
-    exact setP_chain _ (rollback_state cfg now) s
-
-theorem answer_chain (c : Int) (s : S) : Chain s (answer c s) := emit_chain _ rfl s
-
-theorem stopReport_chain (cfg : Cfg) (now : Int) (s : S) : Chain s (stopReport cfg now s) := by
-  rw [stopReport, guard]
-  split
-  · exact chain_refl s
-  · dsimp only
-    split
-    · refine chain_trans (b := setP (rollback cfg now) s) ?_ ?_
-      · exact setP_chain _ (rollback_state cfg now) s
-      · apply setP_chain; intro p; split <;> rfl
-    · exact chain_refl s
-
-theorem rpcStart_chain (cfg : Cfg) (now mood : Int) (res : SpawnRes) (s : S) : Chain s (rpcStart cfg now mood res s) := by
-  rw [rpcStart, guard]
-  dsimp only
-  repeat' split
-  all_goals first
-    | exact chain_refl s
-    | exact answer_chain ..
-    | exact chain_trans (spawn_chain ..) (answer_chain ..)
-    | (refine chain_trans ?_ (answer_chain ..); exact chain_trans (spawn_chain ..) (transition_chain ..))
-
-theorem rpcStop_chain (cfg : Cfg) (now mood : Int) (kr : KillRes) (s : S) : Chain s (rpcStop cfg now mood kr s) := by
-  rw [rpcStop, guard]
-  repeat' split
-  all_goals first
-    | exact chain_refl s
-    | exact answer_chain ..
-    | exact chain_trans (stop_chain ..) (answer_chain ..)
-
-theorem rpcSignal_chain (cfg : Cfg) (now mood sig : Int) (kr : KillRes) (s : S) : Chain s (rpcSignal cfg now mood sig kr s) := by
-  rw [rpcSignal, guard]
-  repeat' split
-  all_goals first
-    | exact chain_refl s
-    | exact answer_chain ..
-    | exact chain_trans (signal_chain ..) (answer_chain ..)
-
-theorem groupStop_chain (cfg : Cfg) (now : Int) (kr : KillRes) (s : S) : Chain s (groupStop cfg now kr s) := by
-  rw [groupStop, guard]
-  repeat' split
-  all_goals first
-    | exact chain_refl s
-    | exact stop_chain ..
-    | exact giveUp_chain ..
 
 /-- **One operation.**  Whatever the process state, configuration, clock reading, daemon mood and
     environment answers, the notifications emitted by one operation name, one after the other, the
@@ -360,5 +150,192 @@ def opsX : List Op := [.transition 1024000 1 (.ok 7) .ok, .transition 1026000 1 
   .transition 1030100 1 (.ok 9) .ok, .rpcStop 1030200 1 .fail]
 example : (run cfgX { p := {} } opsX).p.state = .unknown := by decide +kernel
 example : ((run cfgX { p := {} } opsX).outs.filter isEv).length = 6 := by decide +kernel
+
+/-! ### the daemon: every pass, every run -/
+section Daemon
+open Sv.Sup
+
+/-- **One pass of the main loop, no invariant needed.**  For every daemon state `s` (any record, any
+    bookkeeping, erroneous or not), every environment `env` (clock, spawn / signal-delivery / waitpid
+    answers, signal, RPCs) and every name `n` under which the process table holds an object `e`: if
+    the pass contains no `removeProcessGroup` of `e`'s group, then after the pass the table holds the
+    same object under `n` (same incarnation `gen`), the PROCESS_STATE notifications recorded for `n`
+    (`procEvs n`) were extended by some `x` — nothing recorded earlier was changed —, and `x` names one
+    after the other the state left, follows documented edges (UNKNOWN only through the
+    signalling-failure edge) and ends in the state the object is then in: `replay` from the old state
+    over `x` yields the new state.  (`removeGroup` of the own group deletes the object; it requires all
+    members stopped and announces nothing, see `removeGroup_silent`, `removeGroup_stopped`.) -/
+theorem pass_chain_find (env : Sv.Sup.Env) (s : Sup) (n : Nat) (e : PE) (he : findPE s.procs n = some e)
+    (hrm : ∀ id, Rpc.removeGroup id e.gid ∉ env.rpcs) :
+    ∃ e' x, findPE (pass env s).procs n = some e' ∧ e'.gen = e.gen ∧
+      procEvs n (pass env s).outs = procEvs n s.outs ++ x ∧ replay e.p.state x = some e'.p.state := by
+  obtain ⟨e', x, h1, h2, _, h3, h4⟩ :=
+    (pc_pass (n := n) env (notRemove_of_not_mem hrm) s (PC.refl s)).ch e he rfl
+  exact ⟨e', x, h1, h2, h3, h4⟩
+
+/-- **Every run, no invariant needed**: `pass_chain_find` over any number of passes (`envs`: one
+    environment per pass), provided no pass removes the object's group. -/
+theorem passes_chain_find (envs : List Sv.Sup.Env) (s : Sup) (n : Nat) (e : PE) (he : findPE s.procs n = some e)
+    (hrm : ∀ env ∈ envs, ∀ id, Rpc.removeGroup id e.gid ∉ env.rpcs) :
+    ∃ e' x, findPE (passes envs s).procs n = some e' ∧ e'.gen = e.gen ∧
+      procEvs n (passes envs s).outs = procEvs n s.outs ++ x ∧ replay e.p.state x = some e'.p.state := by
+  obtain ⟨e', x, h1, h2, _, h3, h4⟩ :=
+    (pc_passes (n := n) envs (fun env henv => notRemove_of_not_mem (hrm env henv)) s (PC.refl s)).ch e he rfl
+  exact ⟨e', x, h1, h2, h3, h4⟩
+
+/-- **One pass, in the observer's terms.**  `s` satisfies the daemon invariant `Good` (it holds at
+    every main-loop boundary of every run: `passes_good`, `init_good`; used here only for "names are
+    distinct", before and after the pass) and its record holds no unconsumed per-process RPC answer
+    (`NoAns`: true of the empty record; `stopProcess`/`signalProcess` delete such answers from the
+    *whole* record, so without it `drop s.outs.length` would not be "the new part").  For every process
+    `e` of `s` whose group is not removed by an RPC of this pass, and every entry `e'` of the table
+    after the pass with the same name: it is the same object (`gen`), the old record is a prefix of
+    the new one, and the outputs recorded for it during the pass replay from the state it had to the
+    state it has: each notification names the state left, is a documented edge (UNKNOWN only through
+    the signalling-failure edge), and the last one names the state the process is then in. -/
+theorem pass_chain (env : Sv.Sup.Env) (s : Sup) (hg : Good s) (hna : NoAns s.outs) (e : PE) (he : e ∈ s.procs)
+    (hrm : ∀ id, Rpc.removeGroup id e.gid ∉ env.rpcs) (e' : PE) (he' : e' ∈ (pass env s).procs)
+    (hn : e'.name = e.name) :
+    e'.gen = e.gen ∧ s.outs <+: (pass env s).outs ∧
+    replay e.p.state (procOuts e.name ((pass env s).outs.drop s.outs.length)) = some e'.p.state := by
+  have hf := findPE_of_mem hg.1.nodupP he
+  have hf' := findPE_of_mem (pass_good env s hg).1.nodupP he'
+  obtain ⟨hp, e'', h1, h2, h3⟩ :=
+    (pc_pass (n := e.name) env (notRemove_of_not_mem hrm) s (PC.refl s)).drop hna hf rfl
+  rw [hn, h1] at hf'
+  cases hf'
+  exact ⟨h2, hp, h3⟩
+
+/-- **Every run, in the observer's terms**: as `pass_chain`, over any number of passes none of which
+    removes the object's group. -/
+theorem passes_chain (envs : List Sv.Sup.Env) (s : Sup) (hg : Good s) (hna : NoAns s.outs) (e : PE) (he : e ∈ s.procs)
+    (hrm : ∀ env ∈ envs, ∀ id, Rpc.removeGroup id e.gid ∉ env.rpcs) (e' : PE) (he' : e' ∈ (passes envs s).procs)
+    (hn : e'.name = e.name) :
+    e'.gen = e.gen ∧ s.outs <+: (passes envs s).outs ∧
+    replay e.p.state (procOuts e.name ((passes envs s).outs.drop s.outs.length)) = some e'.p.state := by
+  have hf := findPE_of_mem hg.1.nodupP he
+  have hf' := findPE_of_mem (passes_good envs s hg).1.nodupP he'
+  obtain ⟨hp, e'', h1, h2, h3⟩ :=
+    (pc_passes (n := e.name) envs (fun env henv => notRemove_of_not_mem (hrm env henv)) s (PC.refl s)).drop hna hf rfl
+  rw [hn, h1] at hf'
+  cases hf'
+  exact ⟨h2, hp, h3⟩
+
+/-- **From the start of the daemon.**  The daemon starts with an empty record and its processes in
+    STOPPED.  After any run in which the group of `e` is not removed, an observer that replays
+    everything recorded for `e`'s name from STOPPED is never misled and knows the state the process
+    is in: every change of every such process, whatever the RPCs, signals, spawn and kill outcomes and
+    exit statuses, is a documented edge (UNKNOWN only through the signalling-failure edge) and is
+    announced by exactly one notification naming the state left. -/
+theorem passes_chain_init (envs : List Sv.Sup.Env) (s0 : Sup) (hg : Good s0) (ho : s0.outs = []) (e : PE) (he : e ∈ s0.procs)
+    (hst : e.p.state = .stopped)
+    (hrm : ∀ env ∈ envs, ∀ id, Rpc.removeGroup id e.gid ∉ env.rpcs) (e' : PE) (he' : e' ∈ (passes envs s0).procs)
+    (hn : e'.name = e.name) :
+    e'.gen = e.gen ∧ replay .stopped (procOuts e.name (passes envs s0).outs) = some e'.p.state := by
+  obtain ⟨h1, _, h3⟩ := passes_chain envs s0 hg (by rw [ho]; intro o h; simp at h) e he hrm e' he' hn
+  rw [ho, hst] at h3
+  exact ⟨h1, by simpa using h3⟩
+
+/-- **The record never holds an unconsumed per-process RPC answer** (`NoAns`, the hypothesis of
+    `pass_chain`): one pass keeps it, so it holds at every main-loop boundary of every run that starts
+    with an empty record. -/
+theorem pass_noAns (env : Sv.Sup.Env) (s : Sup) (h : NoAns s.outs) : NoAns (pass env s).outs := na_pass env s h
+
+theorem passes_noAns (envs : List Sv.Sup.Env) (s : Sup) (h : NoAns s.outs) : NoAns (passes envs s).outs := na_passes envs s h
+
+/-- **At every main-loop boundary of every run from a start state** (`Good s0`, empty record; see
+    `init_good`), whatever happened before (`envs`): the next pass `env` satisfies `pass_chain` — both of
+    its hypotheses are invariants of the run. -/
+theorem run_pass_chain (envs : List Sv.Sup.Env) (env : Sv.Sup.Env) (s0 : Sup) (hg : Good s0) (ho : s0.outs = [])
+    (e : PE) (he : e ∈ (passes envs s0).procs) (hrm : ∀ id, Rpc.removeGroup id e.gid ∉ env.rpcs) (e' : PE)
+    (he' : e' ∈ (pass env (passes envs s0)).procs) (hn : e'.name = e.name) :
+    e'.gen = e.gen ∧ (passes envs s0).outs <+: (pass env (passes envs s0)).outs ∧
+    replay e.p.state (procOuts e.name ((pass env (passes envs s0)).outs.drop (passes envs s0).outs.length)) =
+      some e'.p.state :=
+  pass_chain env _ (passes_good envs s0 hg) (passes_noAns envs s0 (by rw [ho]; intro o h; simp at h)) e he hrm e' he' hn
+
+/-- **`removeProcessGroup` announces nothing** for any process name … -/
+theorem removeGroup_silent (id g : Nat) (s : Sup) (n : Nat) :
+    procEvs n (rpcGuarded (.removeGroup id g) s).outs = procEvs n s.outs := Sv.Sup.removeGroup_silent id g s n
+
+/-- **… and deletes only members of the named group, all of them in a stopped state** (STOPPED, EXITED,
+    FATAL or UNKNOWN): the object that `pass_chain` loses sight of when its group is removed was
+    stopped and stays silent. -/
+theorem removeGroup_stopped (id g : Nat) (s : Sup) (e : PE) (he : e ∈ s.procs)
+    (h : e ∉ (rpcGuarded (.removeGroup id g) s).procs) : e.gid = g ∧ e.p.state ∈ stoppedStates :=
+  Sv.Sup.removeGroup_stopped id g s e he h
+
+/-- **An object created during a pass starts in STOPPED.**  `env.rpcs = pre ++ addGroup id g :: post`;
+    `afterRpcs env pre s` is the state of the pass right before that RPC.  If the name `n` is not in
+    the process table there and is in it right after the RPC (entry `e2` — a fresh object: also when
+    the same group was removed earlier in this pass, `gen` is then one more than the old object's),
+    then `e2` is in STOPPED, the RPC announced nothing for `n`, and — if `post` does not remove the
+    group `g` again — the table after the pass holds that object and the notifications recorded for
+    `n` since the RPC replay from STOPPED to its state.  (The old object's notifications are under the
+    same name, before the RPC; they are not part of `x`.) -/
+theorem pass_chain_born (env : Sv.Sup.Env) (s : Sup) (pre post : List Rpc) (id g : Nat)
+    (hrpcs : env.rpcs = pre ++ Rpc.addGroup id g :: post) (hpost : ∀ i, Rpc.removeGroup i g ∉ post) (n : Nat) (e2 : PE)
+    (h1 : findPE (afterRpcs env pre s).procs n = none)
+    (h2 : findPE (afterRpcs env (pre ++ [Rpc.addGroup id g]) s).procs n = some e2) :
+    e2.p.state = .stopped ∧
+    procEvs n (afterRpcs env (pre ++ [Rpc.addGroup id g]) s).outs = procEvs n (afterRpcs env pre s).outs ∧
+    ∃ e' x, findPE (pass env s).procs n = some e' ∧ e'.gen = e2.gen ∧
+      procEvs n (pass env s).outs = procEvs n (afterRpcs env pre s).outs ++ x ∧ replay .stopped x = some e'.p.state := by
+  obtain ⟨hst, hgid, hevs, hpc⟩ := pass_born env s pre post id g hrpcs (notRemove_of_not_mem hpost) h1 h2
+  refine ⟨hst, hevs, ?_⟩
+  obtain ⟨e', x, a, b, _, c, d⟩ := hpc.ch e2 h2 hgid
+  exact ⟨e', x, a, b, by rw [c, hevs], by rw [← hst]; exact d⟩
+
+/-- **… and in every later pass**: the object created in the pass `env` (as in `pass_chain_born`; `s` is
+    any state, e.g. `passes envs0 s0`) is followed through the later passes `envs`, none of which
+    removes the group: everything recorded for its name since it was created replays from STOPPED
+    to the state it is in. -/
+theorem passes_chain_born (env : Sv.Sup.Env) (envs : List Sv.Sup.Env) (s : Sup) (pre post : List Rpc) (id g : Nat)
+    (hrpcs : env.rpcs = pre ++ Rpc.addGroup id g :: post) (hpost : ∀ i, Rpc.removeGroup i g ∉ post)
+    (hrm : ∀ env' ∈ envs, ∀ i, Rpc.removeGroup i g ∉ env'.rpcs) (n : Nat) (e2 : PE)
+    (h1 : findPE (afterRpcs env pre s).procs n = none)
+    (h2 : findPE (afterRpcs env (pre ++ [Rpc.addGroup id g]) s).procs n = some e2) :
+    ∃ e' x, findPE (passes (env :: envs) s).procs n = some e' ∧ e'.gen = e2.gen ∧
+      procEvs n (passes (env :: envs) s).outs = procEvs n (afterRpcs env pre s).outs ++ x ∧
+      replay .stopped x = some e'.p.state := by
+  obtain ⟨hst, hgid, hevs, hpc⟩ := pass_born env s pre post id g hrpcs (notRemove_of_not_mem hpost) h1 h2
+  have hpc' := pc_passes (n := n) envs (fun env' henv => notRemove_of_not_mem (hrm env' henv)) _ hpc
+  obtain ⟨e', x, a, b, _, c, d⟩ := hpc'.ch e2 h2 hgid
+  exact ⟨e', x, a, b, by rw [passes_cons, c, hevs], by rw [← hst]; exact d⟩
+
+-- non-vacuity: two processes in two groups and a dormant third group; pass A starts both; pass B makes
+-- process 1 RUNNING, stops process 2 (RPC; its child is reaped by the reap() inside the later
+-- startProcess), adds group 30 and starts its process 3
+def supX : Sup := { procs := [{ name := 1, gid := 10, gprio := 999, prio := 999, cfg := cfgX },
+                              { name := 2, gid := 20, gprio := 999, prio := 999, cfg := cfgX }],
+                    dormant := [{ name := 3, gid := 30, gprio := 999, prio := 999, cfg := cfgX }] }
+def envA : Sv.Sup.Env := { now := 1024000, spawns := [.ok 7, .ok 8], waits := [[]] }
+def envB : Sv.Sup.Env where
+  now := 1026000
+  kills := [.ok]
+  spawns := [.ok 9]
+  waits := [[], [(8, 0)], []]
+  rpcs := [.stop 5 2 false, .addGroup 6 30, .start 7 3 false false]
+example : (passes [envA, envB] supX).err = none := by decide +kernel
+example : (passes [envA, envB] supX).procs.map (fun e => (e.name, e.gen, e.p.state)) =
+    [(1, 0, .running), (2, 0, .stopped), (3, 1, .starting)] := by decide +kernel
+example : (procEvs 1 (passes [envA, envB] supX).outs).length = 2 ∧ (procEvs 2 (passes [envA, envB] supX).outs).length = 3 ∧
+    (procEvs 3 (passes [envA, envB] supX).outs).length = 1 := by decide +kernel
+example : replay .stopped (procOuts 2 (passes [envA, envB] supX).outs) = some .stopped := by decide +kernel
+theorem supX_good : Good supX := init_good _ _ (by decide) (by intro e he; simp [supX] at he; rcases he with rfl | rfl <;> rfl)
+  (by intro e he; simp [supX] at he; rcases he with rfl | rfl | rfl <;> decide)
+theorem noRemove20 : ∀ env ∈ [envA, envB], ∀ id, Rpc.removeGroup id 20 ∉ env.rpcs := by
+  intro env he id; simp at he; rcases he with rfl | rfl <;> simp [envA, envB]
+-- `passes_chain_init` applies to this run: all its hypotheses hold for process 2
+example (e' : PE) (he' : e' ∈ (passes [envA, envB] supX).procs) (hn : e'.name = 2) :
+    e'.gen = 0 ∧ replay .stopped (procOuts 2 (passes [envA, envB] supX).outs) = some e'.p.state :=
+  passes_chain_init [envA, envB] supX supX_good rfl { name := 2, gid := 20, gprio := 999, prio := 999, cfg := cfgX }
+    (by simp [supX]) rfl noRemove20 e' he' hn
+-- the created object: name 3 is absent before the `addGroup` of pass B and present (incarnation 1) after it
+example : (findPE (afterRpcs envB [.stop 5 2 false] (pass envA supX)).procs 3).isNone = true := by decide +kernel
+example : (findPE (afterRpcs envB ([.stop 5 2 false] ++ [.addGroup 6 30]) (pass envA supX)).procs 3).map (·.gen) = some 1 := by
+  decide +kernel
+
+end Daemon
 
 end Sv.Props.C01
